@@ -1,6 +1,7 @@
 package main
 
 import (
+	"strings"
 	"fmt"
 	"go/token"
 	"go/types"
@@ -127,6 +128,13 @@ func (m *Machine) binop(op token.Token, xt types.Type, a, b Value, yt types.Type
 		panic(unsupported{"string op " + op.String()})
 	case Ptr:
 		y := b.(Ptr)
+		if x.L != nil && y.L != nil && x.L.opaqueID != nil && y.L.opaqueID != nil {
+			e := Eq(x.L.opaqueID, y.L.opaqueID)
+			if op == token.NEQ {
+				return Not(e)
+			}
+			return e
+		}
 		eq := x == y || (x.Nil && y.Nil)
 		if x.BA != nil && y.BA != nil && x.BA == y.BA {
 			e := Eq(x.Idx, y.Idx)
@@ -169,16 +177,16 @@ func (m *Machine) binop(op token.Token, xt types.Type, a, b Value, yt types.Type
 	case Slice:
 		// only comparison with nil is legal
 		y := b.(Slice)
-		xn := x.BA == nil && x.AL == nil
-		yn := y.BA == nil && y.AL == nil
-		eq := xn && yn
+		xn := x.BA == nil && x.AL == nil && x.NilC == nil
+		yn := y.BA == nil && y.AL == nil && y.NilC == nil
 		if !(xn || yn) {
 			panic(unsupported{"slice comparison"})
 		}
+		eq := And(x.isNilTerm(), y.isNilTerm())
 		if op == token.NEQ {
-			return BoolC(!eq)
+			return Not(eq)
 		}
-		return BoolC(eq)
+		return eq
 	case Func:
 		y := b.(Func)
 		eq := x.Fn == nil && y.Fn == nil && x.Name == "" && y.Name == ""
@@ -633,7 +641,13 @@ func (m *Machine) lookup(x *ssa.Lookup, base, key Value) Value {
 					}
 				}
 			}
-			if concrete {
+			hasSym := false
+			for _, ks := range b.M.keys {
+				if strings.HasPrefix(ks, "sym#") {
+					hasSym = true
+				}
+			}
+			if concrete && !hasSym {
 				if v, ok := b.M.kv[keyString(key)]; ok {
 					found, val = BoolC(true), v
 				}
@@ -645,7 +659,12 @@ func (m *Machine) lookup(x *ssa.Lookup, base, key Value) Value {
 				default:
 					mergeable = false
 				}
-				for i := len(b.M.keys) - 1; i >= 0; i-- {
+				for j := 0; j < len(b.M.keys); j++ {
+					// fork mode walks newest -> oldest (first match wins); merge mode oldest -> newest (newest outermost)
+					i := j
+					if !mergeable {
+						i = len(b.M.keys) - 1 - j
+					}
 					ks := b.M.keys[i]
 					rk := b.M.kraw[ks]
 					if s, ok := key.(Str); ok && len(rk.(Str).B) != len(s.B) {
